@@ -95,6 +95,25 @@ TRet == /\ HasLine("ret")
         /\ \A j \in Slots : ProjOK(j, L.proj[j])
         /\ Consume
 
+\* C16: a class statement adds a class; it never changes one that exists (the class table is fixed
+\* in the spec), and the structure read back from every class object is the declared one
+TClass == /\ HasLine("class")
+          /\ L.cls \in DOMAIN classes
+          /\ UNCHANGED svars
+          /\ Consume
+
+TProbe == /\ HasLine("probe")
+          /\ L.cls \in DOMAIN classes
+          /\ LET d == classes[L.cls] IN
+             /\ L.states = [k \in DOMAIN d.states |-> d.states[k].id]
+             /\ L.events = d.events
+             /\ Len(L.allowed) = Len(d.states)
+             /\ \A k \in DOMAIN L.allowed :
+                   /\ L.allowed[k].evs = Allowed(d, L.allowed[k].s)
+                   /\ SeqToSet(L.allowed[k].tgts) = {d.trans[j].tgt : j \in OutIdx(d, L.allowed[k].s)}
+          /\ UNCHANGED svars
+          /\ Consume
+
 TSilent == /\ sil < SilentBound
            /\ \E i \in Slots :
                 \/ LoopPop(i) /\ sil' = 1
@@ -102,7 +121,7 @@ TSilent == /\ sil < SilentBound
                       \/ TrigDone(i) \/ Unwind(i)) /\ sil' = sil + 1
            /\ UNCHANGED <<tid, l>>
 
-TraceNext == TNew \/ TCall \/ TBegin \/ TEnd \/ TNCall \/ TNRet \/ TRet \/ TSilent
+TraceNext == TNew \/ TCall \/ TBegin \/ TEnd \/ TNCall \/ TNRet \/ TRet \/ TClass \/ TProbe \/ TSilent
 TraceSpec == TraceInit /\ [][TraceNext]_tvars
 
 (***************************************************************************)
